@@ -3,10 +3,10 @@ package main
 // SMT script assembly and the solver portfolio.
 
 import (
-	"go/token"
 	"bytes"
 	"context"
 	"fmt"
+	"go/token"
 	"os"
 	"os/exec"
 	"path/filepath"
@@ -308,7 +308,6 @@ func truncate(s string, n int) string {
 func sanitizeFile(s string) string {
 	return strings.NewReplacer("/", "_", "(", "", ")", "", "*", "p", "$", "S", "#", "H", " ", "_").Replace(s)
 }
-
 
 // LemmaObligations builds a pseudo function context holding one obligation per `lemma`: the lemma must follow from the
 // prelude, the spec definitions and the axioms/lemmas stated before it.
